@@ -230,6 +230,8 @@ def main_check(check, tier, seed, replay=None):
                                             ["witness:" + name]))
         real = OracleReal(check, stats, violations)
         rng = core.rng_for(prop, seed)
+        import covrep
+        cov = covrep.start(os.environ.get("EG_REPO", "/repo"))
         if replay:
             payload = json.load(open(replay))
             sc = payload.get("script") or []
@@ -247,6 +249,7 @@ def main_check(check, tier, seed, replay=None):
                 r = rng if rnd == 0 else core.rng_for("%s/drift%d" % (prop, rnd), seed)
                 run_scripts_with_oracle(check, real, check.batches(tier, r, real), stats, violations)
                 violations += check.extra_violations(stats)
+        log["anchored_code_coverage"] = covrep.report(cov, os.environ.get("EG_REPO", "/repo"), prop)
         # 5 classify
         final = []
         corr = [v for v in violations if v.kind == "correspondence"]
@@ -315,7 +318,7 @@ def main_check(check, tier, seed, replay=None):
             "explanation": getattr(check, "explanation", ""),
         }
         coverage.update(stats.extra)
-        coverage.update({k: v for k, v in log.items() if k.startswith(("leanchecker", "table", "regen"))})
+        coverage.update({k: v for k, v in log.items() if k.startswith(("leanchecker", "table", "regen", "anchored"))})
         core.write_evidence(prop, tier, seed, coverage, check.assumptions, time.time() - t0, reported)
         return 1 if reported else 0
     except core.Infra as exc:
